@@ -3,9 +3,13 @@
 //                 every history is written as a request for the Lean driver (Driver/C03.lean, `gsym ...`) and must agree bit for bit
 //                 (except the final matrix-matrix product of eigenvectors()); the property's predicate is evaluated as well.
 //  stream "lib" : the library's OWN wrappers in dense/sparse storage combinations; only the property's predicate (long double).
+//  both streams: the shift solvers are constructed under four shift-argument policies (with_shift_solver: variable kept / overwritten with 3 sigma + 1 / with NaN /
+//                 factory from a by-value parameter with the dead frame scribbled over), and each stream ends with "twin" cases (one solver, several complete runs at ncv == n).
 #include "solver_common.h"
 #include <Eigen/Sparse>
 #include <Eigen/Eigenvalues>
+#include <memory>
+#include <limits>
 #include <Spectra/MatOp/SparseCholesky.h>
 #include <Spectra/MatOp/SparseSymMatProd.h>
 using namespace sh;
@@ -53,6 +57,30 @@ struct ShiftSolveOp { using Scalar = double; const Mat *A, *B; Mat Minv; double 
     void set_shift(const double& s) { sigma = s; nset++; MatL M = A->cast<LD>() - (LD) s * B->cast<LD>(); Eigen::FullPivLU<MatL> lu(M); if (!lu.isInvertible()) { fail = true; throw std::invalid_argument("ShiftSolveOp: singular"); } Minv = lu.inverse().cast<double>(); }
     void perform_op(const double* x, double* y) const { if (c) c->enter(x, y, A->rows()); mv(Minv, x, y); } };
 
+// ---------------- how the shift reaches the constructor, and what its caller does with the variable afterwards ----------------
+// The shift solvers take `const Scalar& sigma`; the property speaks of the sigma the solver was CONSTRUCTED with (that is the sigma `op.set_shift` factorized
+// A - sigma B with, and the sigma all predicates below use).  A caller may re-use the variable it passed (a shift sweep over one local), or build the solver in a
+// factory function from a by-value parameter / a temporary.  `sigarg` is drawn per case from its own random stream (the problem generators are not disturbed):
+//   0  named variable, untouched for the life of the solver
+//   1  named variable, overwritten with 3 sigma + 1 after construction and before the first init()/compute()
+//   2  named variable, overwritten with NaN after construction
+//   3  factory function with a by-value parameter that hands a temporary to the constructor and returns the solver; the factory's dead stack frame is
+//      scribbled over before the first init()/compute()
+// A solver that copies the shift (const Scalar m_sigma) behaves identically under all four; one that keeps a reference back-transforms with something else.
+static __attribute__((noinline)) double as_temporary(double x) { asm volatile("" ::: "memory"); return x; }
+static __attribute__((noinline)) void scribble_stack(double v) { volatile double junk[4096]; for (int i = 0; i < 4096; i++) junk[i] = (i & 1) ? v : -v; asm volatile("" ::: "memory"); }
+template <class S, class OP, class BOP> static __attribute__((noinline)) std::unique_ptr<S> shift_solver_factory(OP& op, BOP& Bop, int nev, int ncv, double sigma_by_value) {
+    return std::unique_ptr<S>(new S(op, Bop, nev, ncv, as_temporary(sigma_by_value)));
+}
+template <class S, class OP, class BOP, class F> static void with_shift_solver(int sigarg, OP& op, BOP& Bop, int nev, int ncv, double sigma, F&& body) {
+    if (sigarg == 3) { std::unique_ptr<S> s = shift_solver_factory<S>(op, Bop, nev, ncv, sigma); scribble_stack(7.25e11); body(*s); return; }
+    double sig = sigma;
+    S s(op, Bop, nev, ncv, sig);
+    if (sigarg == 1) sig = sigma * 3 + 1; else if (sigarg == 2) sig = std::numeric_limits<double>::quiet_NaN();
+    asm volatile("" : : "r"(&sig) : "memory");
+    body(s);
+}
+
 // ---------------- one problem ----------------
 struct Problem {
     int mode = 0, n = 0, nev = 0, ncv = 0; Mat A, B; double sigma = 0; std::string desc; int condexp = 0, sigkind = 0;
@@ -90,11 +118,11 @@ static void derive(Problem& P) {
 //                  (findings F12d of C07 / F12-svd of C16: the discarded amount is absolute, not relative to ||Op||)
 //   nu_one         buckling / Cayley mode: the reference spectrum of the pencil contains an eigenvalue that the spectral map sends to nu = 1 within
 //                  max(1e3 eps, 10 tol) (buckling: K_G singular, i.e. infinite eigenvalues of K x = lambda K_G x; both: |lambda| > |sigma| / max(1e3 eps, 10 tol))
-struct Ctx { Out* out; uint64_t seed; long caseno; std::string stream; std::string tier; bool weak = false; LD minbeta_rel = 1e300L; bool discard = false; mutable int nu_one = 0; };
+struct Ctx { Out* out; uint64_t seed; long caseno; std::string stream; std::string tier; bool weak = false; LD minbeta_rel = 1e300L; bool discard = false; mutable int nu_one = 0; int sigarg = 0; bool twin = false; };
 struct FnObserver : public Spectra::verif::Observer { std::function<void(const char*)> f; void on(const char* tag, const void*) override { if (f) f(tag); } };
 static std::string hist_json(const Ctx& c, const std::string& cls, const Problem& P, const std::vector<Call>& calls, size_t upto) {
     std::string s = "{\"harness\":\"c03\",\"seed\":" + str(c.seed) + ",\"stream\":\"" + c.stream + "\",\"case\":" + str(c.caseno) + ",\"class\":\"" + cls + "\",\"mode\":" + str(P.mode) + ",\"n\":" + str(P.n) + ",\"nev\":" + str(P.nev) + ",\"ncv\":" + str(P.ncv) +
-        ",\"sigma\":\"" + str(P.sigma) + "\",\"condB_exp\":" + str(P.condexp) + ",\"sigkind\":" + str(P.sigkind) + ",\"tier\":\"" + c.tier + "\",\"weak_handover\":" + str((int) c.weak) + ",\"abs_discard\":" + str((int) c.discard) + ",\"nu_one\":" + str(c.nu_one) + ",\"desc\":\"" + jesc(P.desc) + "\",\"calls\":\"";
+        ",\"sigma\":\"" + str(P.sigma) + "\",\"condB_exp\":" + str(P.condexp) + ",\"sigkind\":" + str(P.sigkind) + ",\"tier\":\"" + c.tier + "\",\"weak_handover\":" + str((int) c.weak) + ",\"abs_discard\":" + str((int) c.discard) + ",\"nu_one\":" + str(c.nu_one) + ",\"sigma_arg\":" + str(P.mode >= 2 ? c.sigarg : 0) + ",\"twin\":" + str((int) c.twin) + ",\"desc\":\"" + jesc(P.desc) + "\",\"calls\":\"";
     for (size_t i = 0; i <= upto && i < calls.size(); i++) { const Call& k = calls[i];
         if (k.kind == 'I') s += "init(v);"; else if (k.kind == 'J') s += "init();"; else if (k.kind == 'C') s += "compute(" + str(k.sel) + "," + str(k.maxit) + "," + str(k.tol) + "," + str(k.sort) + ");"; else s += std::string(1, k.kind) + ";"; }
     return s + "\"}";
@@ -221,6 +249,20 @@ static std::vector<Call> gen_history(Rng& r, int n, bool malformed) {
     }
     return h;
 }
+// "twin" cases (case index >= the base count of the stream): ONE solver object is used for two or three complete runs init(); compute(rule_t); eigenvalues();
+// eigenvectors() with DIFFERENT selection rules at ncv == n, where every run takes the same number of operator applications and restarts (the factorization is
+// complete after n - 1 steps for every rule): what the accessors hand back after run t must be run t's pairs, not something remembered from an earlier run
+static void make_twin(Problem& P) { P.ncv = P.n; if (P.n - P.nev > 16) P.nev = P.n - 16; P.desc += " twin(ncv=n)"; }
+static std::vector<Call> twin_history(Rng& r, int n) {
+    static const int hsel[5] = {0, 3, 4, 7, 8}, hsort[4] = {0, 3, 4, 7}; static const double tl[3] = {1e-6, 1e-8, 1e-10};
+    std::vector<Call> h; const int i1 = (int) r.below(5); int i2 = (int) r.below(4); if (i2 >= i1) i2++;
+    const double tol = tl[r.below(3)]; const int srt = hsort[r.below(4)]; const int rules[3] = {hsel[i1], hsel[i2], hsel[i1]}; const int nrun = 2 + (r.coin(0.3) ? 1 : 0);
+    for (int t = 0; t < nrun; t++) {
+        Call j; j.kind = (t == 0 || r.coin(0.7)) ? 'J' : 'I'; j.v0 = Vec(n); for (int q = 0; q < n; q++) j.v0[q] = r.sym(); h.push_back(j);
+        Call k; k.kind = 'C'; k.sel = rules[t]; k.sort = srt; k.maxit = 300; k.tol = tol; h.push_back(k);
+    }
+    return h;
+}
 // SPD matrix with prescribed 2-norm condition number 10^e and norm bscale
 static Mat gen_spd(Rng& r, int n, int e, double bscale) {
     Vec d(n); for (int i = 0; i < n; i++) d[i] = std::pow(10.0, -(double) e * i / std::max(1, n - 1)); if (r.coin(0.3)) for (int i = 1; i + 1 < n; i++) d[i] = std::pow(10.0, -(double) e * r.unit());
@@ -254,8 +296,8 @@ static Mat inv_ld(const Mat& M) { MatL I = M.cast<LD>().fullPivLu().inverse(); r
 
 // ---------------- stream "corr": harness-defined operators, request for the model ----------------
 static void corr_case(Ctx& c, Rng& r, int nmax) {
-    Out& out = *c.out; const int mode = (int) (c.caseno % 5); Problem P = gen_problem(r, mode, nmax); derive(P);
-    std::vector<Call> calls = gen_history(r, P.n, r.coin(0.12)); Counter cnt; std::string req, resp; const int n = P.n;
+    Out& out = *c.out; const int mode = (int) (c.caseno % 5); Problem P = gen_problem(r, mode, c.twin ? std::min(nmax, 16) : nmax); if (c.twin) make_twin(P); derive(P);
+    std::vector<Call> calls = c.twin ? twin_history(r, P.n) : gen_history(r, P.n, r.coin(0.12)); Counter cnt; if (c.twin) out.count("corr_twin"); std::string req, resp; const int n = P.n;
     out.count("corr_mode_" + str(mode)); out.count("corr_condB_1e" + str(P.condexp)); if (mode >= 2) out.count("corr_sigkind_" + str(P.sigkind));
     auto applied = [&cnt]() { return cnt.applied; }; auto reset = [&cnt]() { cnt.applied = 0; };
     auto emit = [&](const Mat& aux) { out.corr(header(P, aux) + req, resp.size() > 3 ? resp.substr(3) : resp); if (cnt.alias) out.fail("op-alias", "operator was handed overlapping input/output vectors", hist_json(c, "corr", P, calls, calls.size())); };
@@ -268,9 +310,10 @@ static void corr_case(Ctx& c, Rng& r, int nmax) {
         else {
             ShiftSolveOp op(P.A, P.B, &cnt); ProdOp Bop(mode == 3 ? P.A : P.B, nullptr);
             try {
-                if (mode == 2) { Spectra::SymGEigsShiftSolver<ShiftSolveOp, ProdOp, GEigsMode::ShiftInvert> s(op, Bop, P.nev, P.ncv, P.sigma); drive(s, "SymGEigsShiftSolver<ShiftInvert>", P, calls, c, &req, &resp, applied, reset); }
-                else if (mode == 3) { Spectra::SymGEigsShiftSolver<ShiftSolveOp, ProdOp, GEigsMode::Buckling> s(op, Bop, P.nev, P.ncv, P.sigma); drive(s, "SymGEigsShiftSolver<Buckling>", P, calls, c, &req, &resp, applied, reset); }
-                else { Spectra::SymGEigsShiftSolver<ShiftSolveOp, ProdOp, GEigsMode::Cayley> s(op, Bop, P.nev, P.ncv, P.sigma); drive(s, "SymGEigsShiftSolver<Cayley>", P, calls, c, &req, &resp, applied, reset); }
+                out.count("corr_sigarg_" + str(c.sigarg));
+                if (mode == 2) with_shift_solver<Spectra::SymGEigsShiftSolver<ShiftSolveOp, ProdOp, GEigsMode::ShiftInvert>>(c.sigarg, op, Bop, P.nev, P.ncv, P.sigma, [&](auto& s) { drive(s, "SymGEigsShiftSolver<ShiftInvert>", P, calls, c, &req, &resp, applied, reset); });
+                else if (mode == 3) with_shift_solver<Spectra::SymGEigsShiftSolver<ShiftSolveOp, ProdOp, GEigsMode::Buckling>>(c.sigarg, op, Bop, P.nev, P.ncv, P.sigma, [&](auto& s) { drive(s, "SymGEigsShiftSolver<Buckling>", P, calls, c, &req, &resp, applied, reset); });
+                else with_shift_solver<Spectra::SymGEigsShiftSolver<ShiftSolveOp, ProdOp, GEigsMode::Cayley>>(c.sigarg, op, Bop, P.nev, P.ncv, P.sigma, [&](auto& s) { drive(s, "SymGEigsShiftSolver<Cayley>", P, calls, c, &req, &resp, applied, reset); });
                 if (op.nset != 1 || op.sigma != P.sigma) out.fail("set-shift", "constructor called set_shift " + str(op.nset) + " times, last with " + str(op.sigma) + " instead of once with " + str(P.sigma), hist_json(c, "corr", P, calls, 0));
                 if ((mode == 3 || mode == 4) && P.sigma == 0.0) out.fail("sigma0-accepted", "mode " + str(mode) + " accepted sigma = 0", hist_json(c, "corr", P, calls, 0));
                 emit(op.Minv);
@@ -290,9 +333,10 @@ static void corr_case(Ctx& c, Rng& r, int nmax) {
 template <class S> static void lib_run(S& s, const std::string& cls, const Problem& P, const std::vector<Call>& calls, Ctx& c) { drive(s, cls, P, calls, c, nullptr, nullptr, std::function<long()>(), []() {}); }
 template <class TA, class TB, class MA, class MB, class BP, class MBP> static void lib_shift(const MA& A, const MB& B, const MBP& Kp, const std::string& tag, const Problem& P, const std::vector<Call>& calls, Ctx& c) {
     using SI = Spectra::SymShiftInvert<double, TA, TB>; SI op(A, B); BP Bop(Kp);
-    if (P.mode == 2) { Spectra::SymGEigsShiftSolver<SI, BP, GEigsMode::ShiftInvert> s(op, Bop, P.nev, P.ncv, P.sigma); lib_run(s, "SymGEigsShiftSolver<ShiftInvert>/" + tag, P, calls, c); }
-    else if (P.mode == 3) { Spectra::SymGEigsShiftSolver<SI, BP, GEigsMode::Buckling> s(op, Bop, P.nev, P.ncv, P.sigma); lib_run(s, "SymGEigsShiftSolver<Buckling>/" + tag, P, calls, c); }
-    else { Spectra::SymGEigsShiftSolver<SI, BP, GEigsMode::Cayley> s(op, Bop, P.nev, P.ncv, P.sigma); lib_run(s, "SymGEigsShiftSolver<Cayley>/" + tag, P, calls, c); }
+    c.out->count("lib_sigarg_" + str(c.sigarg));
+    if (P.mode == 2) with_shift_solver<Spectra::SymGEigsShiftSolver<SI, BP, GEigsMode::ShiftInvert>>(c.sigarg, op, Bop, P.nev, P.ncv, P.sigma, [&](auto& s) { lib_run(s, "SymGEigsShiftSolver<ShiftInvert>/" + tag, P, calls, c); });
+    else if (P.mode == 3) with_shift_solver<Spectra::SymGEigsShiftSolver<SI, BP, GEigsMode::Buckling>>(c.sigarg, op, Bop, P.nev, P.ncv, P.sigma, [&](auto& s) { lib_run(s, "SymGEigsShiftSolver<Buckling>/" + tag, P, calls, c); });
+    else with_shift_solver<Spectra::SymGEigsShiftSolver<SI, BP, GEigsMode::Cayley>>(c.sigarg, op, Bop, P.nev, P.ncv, P.sigma, [&](auto& s) { lib_run(s, "SymGEigsShiftSolver<Cayley>/" + tag, P, calls, c); });
 }
 // mixed triangle options: only the designated triangle of each matrix is meaningful, the other one holds garbage; the oracle
 // (residual / Gram predicates in `drive`) is evaluated against the true symmetric pencil P.A, P.B
@@ -303,14 +347,15 @@ template <int UA, int UB> static void lib_shift_uplo(const Problem& P, const std
         if ((UB == Eigen::Lower) == upper) Bg(i, j) = 1e3 * (1.0 + r.unit()) * (r.coin() ? 1 : -1); }
     using SI = Spectra::SymShiftInvert<double, Eigen::Dense, Eigen::Dense, UA, UB>; SI op(Ag, Bg);
     const std::string tag = std::string("dense,dense,") + (UA == Eigen::Lower ? "Lower" : "Upper") + "," + (UB == Eigen::Lower ? "Lower" : "Upper");
-    if (P.mode == 3) { using BP = Spectra::DenseSymMatProd<double, UA>; BP Bop(Ag); Spectra::SymGEigsShiftSolver<SI, BP, GEigsMode::Buckling> s(op, Bop, P.nev, P.ncv, P.sigma); lib_run(s, "SymGEigsShiftSolver<Buckling>/" + tag, P, calls, c); }
+    c.out->count("lib_sigarg_" + str(c.sigarg));
+    if (P.mode == 3) { using BP = Spectra::DenseSymMatProd<double, UA>; BP Bop(Ag); with_shift_solver<Spectra::SymGEigsShiftSolver<SI, BP, GEigsMode::Buckling>>(c.sigarg, op, Bop, P.nev, P.ncv, P.sigma, [&](auto& s) { lib_run(s, "SymGEigsShiftSolver<Buckling>/" + tag, P, calls, c); }); }
     else { using BP = Spectra::DenseSymMatProd<double, UB>; BP Bop(Bg);
-        if (P.mode == 2) { Spectra::SymGEigsShiftSolver<SI, BP, GEigsMode::ShiftInvert> s(op, Bop, P.nev, P.ncv, P.sigma); lib_run(s, "SymGEigsShiftSolver<ShiftInvert>/" + tag, P, calls, c); }
-        else { Spectra::SymGEigsShiftSolver<SI, BP, GEigsMode::Cayley> s(op, Bop, P.nev, P.ncv, P.sigma); lib_run(s, "SymGEigsShiftSolver<Cayley>/" + tag, P, calls, c); } }
+        if (P.mode == 2) with_shift_solver<Spectra::SymGEigsShiftSolver<SI, BP, GEigsMode::ShiftInvert>>(c.sigarg, op, Bop, P.nev, P.ncv, P.sigma, [&](auto& s) { lib_run(s, "SymGEigsShiftSolver<ShiftInvert>/" + tag, P, calls, c); });
+        else with_shift_solver<Spectra::SymGEigsShiftSolver<SI, BP, GEigsMode::Cayley>>(c.sigarg, op, Bop, P.nev, P.ncv, P.sigma, [&](auto& s) { lib_run(s, "SymGEigsShiftSolver<Cayley>/" + tag, P, calls, c); }); }
 }
 static void lib_case(Ctx& c, Rng& r, int nmax) {
-    Out& out = *c.out; const int mode = (int) (c.caseno % 5); Problem P = gen_problem(r, mode, nmax); if (P.sigkind == 9) { P.sigma = 1.2345; P.sigkind = 0; } derive(P);
-    std::vector<Call> calls = gen_history(r, P.n, false); const int combo = (int) ((c.caseno / 5) % 4); const bool sa = combo & 1, sb = combo & 2;
+    Out& out = *c.out; const int mode = (int) (c.caseno % 5); Problem P = gen_problem(r, mode, nmax); if (P.sigkind == 9) { P.sigma = 1.2345; P.sigkind = 0; } if (c.twin) make_twin(P); derive(P);
+    std::vector<Call> calls = c.twin ? twin_history(r, P.n) : gen_history(r, P.n, false); if (c.twin) out.count("lib_twin"); const int combo = (int) ((c.caseno / 5) % 4); const bool sa = combo & 1, sb = combo & 2;
     SpMat As = P.A.sparseView(), Bs = P.B.sparseView(); As.makeCompressed(); Bs.makeCompressed();
     out.count("lib_mode_" + str(mode) + "_combo_" + str(combo)); out.count("lib_condB_1e" + str(P.condexp));
     using DP = Spectra::DenseSymMatProd<double>; using SP = Spectra::SparseSymMatProd<double>;
@@ -355,15 +400,18 @@ int main(int argc, char** argv) {
     if (!args.replay.empty()) { std::ifstream f(args.replay); std::stringstream ss; ss << f.rdbuf(); std::string t = ss.str(); only = json_long(t, "case", -1); only_stream = json_str(t, "stream"); long sd = json_long(t, "seed", -1); if (sd >= 0) seed = (uint64_t) sd;
         std::string tr = json_str(t, "tier"); if (tr == "quick" || tr == "thorough") args.tier = tr; }
     const int ncorr = args.thorough() ? 3000 : 400, nlib = args.thorough() ? 3000 : 400;
+    const int ncorr_twin = args.thorough() ? 300 : 40, nlib_twin = args.thorough() ? 300 : 40;       // twin cases: indices ncorr.., nlib..
     const int nmax_corr = args.thorough() ? 20 : 11, nmax_lib = args.thorough() ? 40 : 16;
     auto one = [&](const std::string& stream, long cs) {
         { std::ofstream lc(args.out + "/lastcase.txt"); lc << "c03 stream " << stream << " case " << cs << " seed " << seed << "\n"; }
         Ctx c{&out, seed, cs, stream, args.tier};
+        c.twin = cs >= (stream == "corr" ? ncorr : nlib);
+        { Rng rp(seed, stream == "corr" ? 33 : 34, cs); const double u = rp.unit(); c.sigarg = u < 0.40 ? 0 : u < 0.65 ? 1 : u < 0.75 ? 2 : 3; }      // shift-argument policy (see with_shift_solver)
         if (stream == "corr") { Rng r(seed, 31, cs); corr_case(c, r, nmax_corr); } else { Rng r(seed, 32, cs); lib_case(c, r, nmax_lib); }
     };
     if (only >= 0 && !only_stream.empty()) { one(only_stream, only); out.finish(); return 0; }
-    for (long cs = 0; cs < ncorr; cs++) one("corr", cs);
-    for (long cs = 0; cs < nlib; cs++) one("lib", cs);
+    for (long cs = 0; cs < ncorr + ncorr_twin; cs++) one("corr", cs);
+    for (long cs = 0; cs < nlib + nlib_twin; cs++) one("lib", cs);
     out.finish();
     return 0;
 }
